@@ -410,6 +410,7 @@ class Built(object):
         self.fault_log = []
         self.trace = []
         self._tl = threading.local()
+        self.snapshot = False      # keep harness-side deep copies of returned values (for runs that mutate what they obtain)
 
     # ---- fault plumbing -------------------------------------------------------------------------
     def arm(self, kind):
@@ -582,6 +583,9 @@ class Built(object):
                 ev['raised'] = ex
                 raise ex
             ev['returned'] = v
+            if built.snapshot:
+                from vlib.values import fresh
+                ev['returned_snap'] = fresh(v)
             return v
         body.__name__ = d['name']
         return body
@@ -809,6 +813,9 @@ class Built(object):
             raise
         ev['ret'] = v
         ev['has_ret'] = True
+        if self.snapshot:
+            from vlib.values import fresh
+            ev['ret_snap'] = fresh(v)
         return v
 
 
